@@ -14,7 +14,7 @@ EXTENDS HelmProps
 
 Trace == ndJsonDeserialize("trace.ndjson")
 
-MonRev  == 1..20
+MonRev  == 1..40
 MonProc == 0..4
 
 VARIABLES l, S, B, lab, pre, sum, ended, esum
@@ -35,7 +35,7 @@ NoRecM == [st |-> "none", ch |-> "none", cfg |-> "none", man |-> <<>>, hooks |->
 
 StoreOfJ(js) == [r \in MonRev |-> IF ToString(r) \in DOMAIN js THEN RecOfJ(js[ToString(r)]) ELSE NoRecM]
 
-AllIds == {"r1", "r2", "r3", "r4", "r5", "h1", "h2", "h3", "h4", "by1", "by2"}
+AllIds == {"r1", "r2", "r3", "r4", "r5", "h1", "h2", "h3", "h4", "by1", "by2", "c1", "c2"}
 AbsentM == [f1 |-> "-", f2 |-> "-", own |-> "absent", pol |-> "none", dig |-> ""]
 ObjOfJ(j) == [f1 |-> j.f1, f2 |-> j.f2, own |-> j.own, pol |-> j.pol, dig |-> j.dig]
 ClusterOfJ(jc) == [o \in AllIds \cup DOMAIN jc |-> IF o \in DOMAIN jc THEN ObjOfJ(jc[o]) ELSE AbsentM]
@@ -46,13 +46,13 @@ MOf(e) == [kind |-> e.op, chart |-> IF e.chart = "" THEN "none" ELSE e.chart,
            replace |-> e.flags.replace, atomic |-> e.flags.atomic, cleanup |-> e.flags.cleanupOnFail,
            keep |-> e.flags.keepHistory, nohooks |-> e.flags.noHooks, lim |-> e.flags.maxHistory,
            ver |-> e.flags.version, dry |-> e.flags.dryRun, takeown |-> e.flags.takeOwnership,
-           clientOnly |-> e.flags.clientOnly]
+           clientOnly |-> e.flags.clientOnly, createNS |-> e.flags.createNamespace, skipCRDs |-> e.flags.skipCRDs]
 
 LabOf(e) == [p |-> e.proc, ev |-> e.ev, kind |-> e.kind, verb |-> e.verb, id |-> e.id, ok |-> e.ok, inj |-> e.inj]
 
 NoU == [kind |-> "none", chart |-> "none", replace |-> FALSE, atomic |-> FALSE, cleanup |-> FALSE,
         keep |-> FALSE, nohooks |-> FALSE, lim |-> 0, ver |-> 0, dry |-> FALSE, takeown |-> FALSE,
-        clientOnly |-> FALSE]
+        clientOnly |-> FALSE, createNS |-> FALSE, skipCRDs |-> FALSE]
 NoSum == [u |-> NoU, ok |-> FALSE, crs |-> {}, flt |-> {}, posted |-> {}, log |-> <<>>, active |-> FALSE,
           sub |-> FALSE, fsub |-> FALSE]
 NoState == [store |-> [r \in MonRev |-> NoRecM], cluster |-> [o \in AllIds |-> AbsentM]]
